@@ -132,11 +132,29 @@ def handleTree (kv : KV) : String :=
       | none => s!"OK {id} tags=tree,{if implKind == "ok" then "ok" else "acc-err"}"
   | _, _, _ => "ERR ? missing-field"
 
+/-- kind=ftyp: an ftyp box parsed (and optionally typed-parsed) and serialised again: exactly encoded_len bytes, and the
+    original bytes (whatever the length of the brands area) -/
+def handleFtyp (kv : KV) : String :=
+  match kv.hex? "bytes", kv.get? "res" with
+  | some bytes, some res =>
+    let id := s!"ftyp:{kv.getD "typed" "0"}:{(toHex bytes).take 60}:{bytes.length}"
+    if res == "panic" then s!"SPEC {id} which=no-panic sig=ftyp:panic"
+    else if res.startsWith "ok" then
+      match kv.hex? "put", kv.nat? "elen", kv.nat? "rest" with
+      | some put, some elen, some rest =>
+        if elen != put.length then s!"SPEC {id} which=encoded-len-equals-bytes-written sig=ftyp:len impl-elen={elen} written={put.length}"
+        else if put != bytes.take (bytes.length - rest) then s!"SPEC {id} which=serialize-reproduces-bytes sig=ftyp:roundtrip put={toHex put}"
+        else s!"OK {id} tags=ftyp,{if kv.getD "typed" "0" == "1" then "typed" else "raw"},{if (bytes.length - rest) % 4 == 0 then "whole-brands" else "ragged"}"
+      | _, _, _ => s!"ERR {id} missing-field"
+    else s!"OK {id} tags=ftyp,rejected"
+  | _, _ => "ERR ? missing-field"
+
 def handle (kv : KV) : String :=
   match kv.get? "kind" with
   | some "hdr" => handleHdr kv
   | some "ctor" => handleCtor kv
   | some "tree" => handleTree kv
+  | some "ftyp" => handleFtyp kv
   | _ => "ERR ? unknown-kind"
 
 end Driver.C16
